@@ -1393,6 +1393,14 @@ func c01Eval(src string) (status string, ref nodeRun, fails []c01Fail) {
 		if sameRun(ref, runs[i]) {
 			continue
 		}
+		if runs[i].Completion == "timeout" {
+			// the source finished within the short limit: give the output the long one
+			// before calling it a difference (machine load)
+			runs[i] = nodeRunSlow([]string{codes[i]})[0]
+			if sameRun(ref, runs[i]) {
+				continue
+			}
+		}
 		for _, cs := range cfgsOf[i] {
 			fails = append(fails, c01Fail{cfg: cs, code: codes[i], got: runs[i], class: c01Class(traits, parseCcfg(cs))})
 		}
